@@ -11,6 +11,12 @@ CLAIMS = {
  "C03": ("must-pass-through over the SSA CFG of the VALUES loop (R-path) + dominance of rejection calls",
          "Structural necessary condition only: no row of an INSERT ... VALUES list can take a path through the routing loop that neither places the row in a rewritten statement nor fails the statement; the shard-column rejections dominate SQL generation. Not a proof that the routed index equals the lookup index.",
          "SSA/CFG of proxy/plan is a faithful model of control flow; runtime panics are not modelled as exits.", "§4 C03"),
+ "C05": ("edge dominance + error-edge must-pass in the two shard-column rejection functions",
+         "Decides only the rejection gate of the property's second sentence: an assignment whose column is the rule's sharding column reaches only error returns, inside the loop over all assignments, and these checks dominate SQL generation. That exactly the matching rows change and the affected-row count are row-level equivalence and are not decided.",
+         "", "§9 C05"),
+ "C06": ("edge dominance on the fast-path gates (token pre-check result -> unshard plan)",
+         "Decides only the gates: a table with a sharding rule makes the token pre-check answer 'not unsharded' on every path, and the unshard fast plan is chosen only on the pre-check's positive answer (or when the router has no rules). Whether the whitespace tokenizer sees every table the SQL grammar sees (letter case, comments glued to names, quoting) is a language-equivalence question and is not decided.",
+         "", "§9 C06"),
  "C07": ("effect analysis: writers of routing configuration (SSA stores/map updates rooted at protected types) must be unreachable in the VTA call graph from the session roots",
          "Decides 'planning never writes routing configuration shared between sessions' for every call path the VTA call graph admits; plan equality follows from absence of shared mutable state and is not separately checked.",
          "VTA call graph over-approximates dynamic calls (no reflection/unsafe dispatch in the analysed packages); writes through unsafe or reflection are not seen.", "§4 C07"),
@@ -81,8 +87,6 @@ NA = {
  "C01": "Pruned index sets versus placement of every key relative to range/calendar boundaries is arithmetic over values; no structural clause that is both necessary and not a frozen fragment.",
  "C02": "Result-multiset equivalence over data and queries; no structural necessary condition beyond what the type system enforces.",
  "C04": "Depends on configured layouts and rewritten database names (values); the only structure is a frozen fragment.",
- "C05": "Row-level equivalence; its single dominance fact (shard-column rejection precedes SQL generation) is reported as a side obligation under C03.",
- "C06": "Agreement of a whitespace tokenizer with the SQL grammar over all texts is a language-equivalence question over inputs.",
  "C08": "Numerical equality with a Java reference implementation (UTF-16 code units, 32-bit wraparound).",
  "C13": "Value equality per column type between text and binary protocol rows.",
  "C14": "Agreement of the hand-written placeholder scanner with the SQL lexer over all texts (language equivalence over inputs).",
